@@ -265,6 +265,21 @@ def run_bb(job, acc):
         acc.sample(case)
 
 
+def check_unknown(acc, c, case):
+    """An assumption on a node that is not in the circuit must be rejected with ValueError."""
+    import circuitgraph as cg
+
+    acc.transitions += 1
+    cc = dict(case, site="assume")
+    try:
+        cg.sat.solve(c, {"no_such_node": True})
+        acc.violation("assume", "unknown-node-accepted", cc, "")
+    except ValueError:
+        acc.outcome("unknown-node-ValueError")
+    except Exception as e:  # noqa: BLE001
+        acc.violation("assume", f"unknown-node-wrong-exception:{common.exc_name(e)}", cc, repr(e))
+
+
 def run_assume(job, acc):
     import circuitgraph as cg
 
@@ -300,15 +315,7 @@ def run_assume(job, acc):
                 nt = True
         if nt:
             acc.nontrivial += 1
-        # unknown node
-        acc.transitions += 1
-        try:
-            cg.sat.solve(c, {"no_such_node": True})
-            acc.violation("assume", "unknown-node-accepted", case, "")
-        except ValueError:
-            acc.outcome("unknown-node-ValueError")
-        except Exception as e:  # noqa: BLE001
-            acc.violation("assume", f"unknown-node-wrong-exception:{common.exc_name(e)}", case, repr(e))
+        check_unknown(acc, c, case)
         acc.sample(case)
         acc.observe(hex(want))
 
@@ -447,6 +454,8 @@ def replay(case, job):
         return acc.result()
     site = case.get("site", case.get("kind", "comb"))
     c = space.build(case["desc"])
+    if case.get("kind") == "assume":
+        check_unknown(acc, c, {k: v for k, v in case.items() if k != "site"})
     want = check_cnf(acc, c, dict(case), site)
     if want is not None:
         a = case.get("assumption", {})
